@@ -19,3 +19,5 @@ import Spydr.Verilog.Props.C06
 #print axioms Spydr.Verilog.assign_regen_all
 #print axioms Spydr.Verilog.write_order_defined
 #print axioms Spydr.Verilog.visit_order_defined
+#print axioms Spydr.Verilog.verilog_reader_spec_partial
+#print axioms Spydr.Verilog.verilog_roundtrip_partial
